@@ -331,6 +331,7 @@ def judge_resolver_no_items(res, st, perm, mode, tmpdir):
         7: {"name": "q7", "priority": 20, "vars": {"u": "seven", "w": 7}, "finalizers": [{"type": "concat", "separator": "|", "prefix": "<7 ", "suffix": " 7>"}]},
         8: {"name": "q8", "priority": 20, "vars": {"x": 8}, "postprocessing": [{"id": "post8", "type": "simple_template", "template": "T8 {query} u={pipeline.vars[u]} T8"}],
             "finalizers": [{"type": "concat", "separator": "+", "prefix": "<8 ", "suffix": " 8>"}]},
+        9: {"name": "q9", "priority": 10, "vars": {"u": "nine", "y": 9}},  # nothing but variables
     }
     case = {"kind": "resolver-no-items", "perm": list(perm), "mode": mode}
     res["evaluations"] += 1
@@ -344,7 +345,7 @@ def judge_resolver_no_items(res, st, perm, mode, tmpdir):
     else:
         resolver, specs, key = ProcessingPipelineResolver(), [], {}
         for i in perm:
-            path = os.path.join(tmpdir, f"{'cba'[i - 6]}_noitems{i}.yml")
+            path = os.path.join(tmpdir, f"{'dcba'[i - 6]}_noitems{i}.yml")
             with open(path, "w") as f:
                 yaml.safe_dump(defs[i], f)
             specs.append(path)
@@ -559,8 +560,8 @@ def run_shard(shard, tier, seed):
                     for mode in ("names", "files"):
                         for twice in (False, True):
                             judge_resolver(res, st, n, perm, mode, twice, tmpdir)
-            for m in (1, 2, 3):
-                for perm in itertools.permutations((6, 7, 8), m):
+            for m in (1, 2, 3, 4):
+                for perm in itertools.permutations((6, 7, 8, 9), m):
                     for mode in ("names", "files"):
                         judge_resolver_no_items(res, st, perm, mode, tmpdir)
             res["samples"].append({"kind": "resolver", "perm": list(range(n, 0, -1)), "mode": "files"})
